@@ -73,6 +73,31 @@ func (b BranchInstr) Execute(env *Zlisp) error {
 	return nil
 }
 
+// SelfTailGuardInstr precedes a self tail call compiled as a jump: when sym
+// no longer denotes the running function (it was rebound by a parameter or a
+// local of the same name) control goes to the ordinary call placed
+// 'otherwise' instructions further on.
+type SelfTailGuardInstr struct {
+	sym       *SexpSymbol
+	otherwise int
+}
+
+func (g SelfTailGuardInstr) InstrString() string {
+	return fmt.Sprintf("selftailguard %s else +%d", g.sym.name, g.otherwise)
+}
+
+func (g SelfTailGuardInstr) Execute(env *Zlisp) error {
+	callee, err, _ := env.LexicalLookupSymbol(g.sym, nil)
+	if err == nil {
+		if f, ok := callee.(*SexpFunction); ok && f == env.curfunc {
+			env.pc++
+			return nil
+		}
+	}
+	env.pc += g.otherwise
+	return nil
+}
+
 type PushInstr struct {
 	expr Sexp
 }
